@@ -86,8 +86,72 @@ fn deep_limit(seed: u64, k: u64) -> Vec<Plan> {
     vec![plan]
 }
 
+/// "each with a score in centipawns or moves-to-mate", truthfully: positions in which a mate is
+/// near (the C12 corpus: forced mates in one and two, threats of them), searched a few plies
+/// deeper than the mate, more than once, so that iterations run on a warm cache as well.
+fn mate_problem(seed: u64) -> Vec<Plan> {
+    use super::super::kernel::Action;
+    let mut rng = Rng::new(seed ^ 0x3a7e);
+    let mut found = None;
+    for _ in 0..400 {
+        let Some(p) = super::c12::candidate(&mut rng) else { continue };
+        if p.legal_moves().is_empty() {
+            continue;
+        }
+        let c = super::c12::classify(&p);
+        if c.m1 || c.m2 || c.threat {
+            found = Some(p);
+            break;
+        }
+    }
+    let Some(pos) = found else { return vec![] };
+    let mut plan = Plan::new("C14", seed);
+    let mut s = vec![Action::send(format!("position fen {}", pos.to_fen()))];
+    let maxd = if pos.piece_count() <= 8 {
+        7
+    } else if pos.piece_count() <= 22 {
+        5
+    } else {
+        3
+    };
+    for _ in 0..rng.range(1, 3) {
+        s.push(Action::send(format!("go depth {}", rng.range(2, maxd))));
+        s.push(Action::WaitBestmove);
+        s.push(Action::WaitIdle);
+    }
+    s.push(Action::send("quit"));
+    plan.script = s;
+    plan.step_cap = 12_000_000;
+    plan.tick_cap = 40_000_000;
+    gen::machine(&mut plan, &mut rng, 60_000, true);
+    light_schedule(&mut plan, &mut rng);
+    plan.params = super::super::json::J::obj().set("mate_problem", true);
+    vec![plan]
+}
+
+/// What the rules of chess say about a mate score's SIGN (its size is not checked: the statement
+/// does not promise exact distances). `Some(true)`: the side to move can force mate within two
+/// of its own moves. `Some(false)`: whatever it plays, the opponent can. `None`: neither
+/// proven within the budget.
+fn proven_winner(pos: &Pos) -> Option<bool> {
+    use super::super::refmodel::Solver;
+    let mut so = Solver::new(400_000);
+    if so.mate_in(pos, 2) == Some(true) {
+        return Some(true);
+    }
+    let mut so = Solver::new(400_000);
+    let ms = pos.legal_moves();
+    if !ms.is_empty() && ms.iter().all(|&m| so.mate_in(&pos.make(m), 2) == Some(true)) {
+        return Some(false);
+    }
+    None
+}
+
 pub fn generate(cx: &super::GenCtx) -> Vec<Plan> {
     let seed = cx.seed;
+    if cx.index % 10 == 7 && cx.index >= 100 {
+        return mate_problem(seed);
+    }
     if cx.index < long_sessions(cx.thorough) {
         return long_session(seed, cx.thorough);
     }
@@ -253,6 +317,7 @@ pub fn check(plans: &[Plan], recs: &[RunRec]) -> Outcome {
         }
         let mut expect = 1u64;
         let mut order_ok = true;
+        let mut winner: Option<Option<bool>> = None;
         for i in &g.infos {
             if !i.text.starts_with("info") {
                 continue; // not an info line (the engine prints nothing else from the search thread)
@@ -283,6 +348,26 @@ pub fn check(plans: &[Plan], recs: &[RunRec]) -> Outcome {
                         } else {
                             "reach.mate_score_negative"
                         });
+                    }
+                    if let (Some(m), Some(p)) = (info.mate, &v.pos) {
+                        let truth = *winner.get_or_insert_with(|| proven_winner(p));
+                        if let Some(side_to_move_mates) = truth {
+                            out.stats.inc("mate_sign_checked_against_rules");
+                            if side_to_move_mates != (m > 0) {
+                                out.violations.push(Violation::new(
+                                    "mate_sign_untruthful",
+                                    format!(
+                                        "go #{} ({:?}) from {}: line {:?} says the side to move {} although by the rules it {} by force within two moves",
+                                        v.idx,
+                                        v.text,
+                                        p.to_fen(),
+                                        i.text,
+                                        if m > 0 { "mates" } else { "is mated" },
+                                        if side_to_move_mates { "mates" } else { "is mated" },
+                                    ),
+                                ));
+                            }
+                        }
                     }
                     if (info.pv.len() as u64) < info.depth {
                         out.stats.inc("reach.pv_shorter_than_depth");
